@@ -218,11 +218,11 @@ RULES = [
     ("src/primitives/threshold.rs", r"^map_from_post_order_iter$", r"", r"", "model:RobustModel.thr_map_post_order (Panic 2 when an index is out of range) - thr_map_post_order_total under post-order indices"),
     ("src/primitives/threshold.rs", r"^is_sorted$", r"index", r"", "arg:windows(2) yields slices of length exactly 2"),
     ("src/primitives/threshold.rs", r"", r"", r"", "model:RobustModel (threshold constructors) - threshold_ctor_total"),
-    ("src/iter/tree.rs", r"^next$", r"unwrap", r"nth_child", "model:RobustModel.post_step / vpre_step (Panic 3) - nth_child(idx) with idx < n_children: post_order_total, tree_nth_child_some"),
-    ("src/iter/tree.rs", r"^next$", r"index", r"", "model:RobustModel.post_step (Panic 4) - parent_stack_idx always below the stack height: post_order_inv"),
+    ("src/iter/tree.rs", r"^next$", r"unwrap", r"nth_child", "model:RobustModel.post_step / vpre_step (Panic 3) - nth_child(idx) with idx < n_children: post_order_iter_total_C11 (push_children_rev_ok)"),
+    ("src/iter/tree.rs", r"^next$", r"index", r"", "model:RobustModel.post_step (Panic 4) - parent_stack_idx always below the stack height: post_order_iter_total_C11 (invariant pinv)"),
     ("src/iter/tree.rs", r"^next$", r"sub1", r"", "arg:self.index was incremented on the previous line"),
     ("src/iter/tree.rs", r"^nary_index$", r"sub1", r"", "arg:documented precondition idx < nary_len; callers pass idx from 0..n_children (model: rtl index n - idx - 1 with idx < n)"),
-    ("src/iter/tree.rs", r"", r"", r"", "model:RobustModel (tree iterators)"),
+    ("src/iter/tree.rs", r"", r"", r"", "model:RobustModel (tree iterators): pre_order_iter_total_C11, post_order_iter_total_C11"),
     ("src/miniscript/lex.rs", r"", r"", r"", "model:RobustModel.lex_cursor - lex_total (the byte cursor is rust-bitcoin's Instructions; lex.rs itself has no index expression)"),
     ("src/expression/mod.rs", r"^(parse_pre_check|from_str_inner|new_node)$", r"", r"", "model:ExprTreeModel (C10 builder) - tree_total; robust classes str.tree / str.*"),
     ("src/expression/mod.rs", r"^root$", r"assert", r"", "arg:from_str_inner always pushes at least the root node (tree_total, C10)"),
